@@ -73,9 +73,7 @@ fn typed<C: Ord + Clone + Default + std::fmt::Debug>(case: &MultiCase, names: Ve
 
     // ---- own Newton solve from zero: existence certificate (alpha = 0) and reference minimum ----
     let fgh = |t: &[f64]| refopt::multi_eval(&case.x, &yv, k, case.alpha, case.intercept, t);
-    let t0=std::time::Instant::now();
     let own = refopt::lm_newton(&fgh, &vec![0.0; pz * k], 1e-10 * xmax, 300);
-    crate::T_OWN.fetch_add(t0.elapsed().as_micros() as u64, std::sync::atomic::Ordering::Relaxed);crate::T_OWN_IT.fetch_add(own.iters as u64, std::sync::atomic::Ordering::Relaxed);
     let own_spread = case
         .x
         .iter()
@@ -125,10 +123,7 @@ fn typed<C: Ord + Clone + Default + std::fmt::Debug>(case: &MultiCase, names: Ve
     if first_trial_clamped {
         out.tag("multi_first_trial_step_inside_log_sum_exp_clamp_region");
     }
-    let t0=std::time::Instant::now();
-    let fitres = guarded(|| params.fit(&ds));
-    crate::T_FIT.fetch_add(t0.elapsed().as_micros() as u64, std::sync::atomic::Ordering::Relaxed);
-    let model = match fitres {
+    let model = match guarded(|| params.fit(&ds)) {
         Ok(Ok(m)) => m,
         Ok(Err(e)) => {
             let sig = if first_trial_clamped { "multi_logistic.fit.error.log_sum_exp_global_shift_clamp" } else { "multi_logistic.fit.unexpected_error" };
